@@ -347,25 +347,29 @@ theorem nothing_allowed_by_default (f : PRule → Bool) : lastVerdict [] f = fal
 
 /-! ### the gate -/
 
-/-- the gate refuses with AccessDenied and nothing else -/
+/-- the gate refuses with AccessDenied and nothing else — except that a recipient that is not reading
+    (its outgoing queue is over the limit) is refused with LimitsExceeded, after the policy has allowed -/
 theorem gate_denies_with_access_denied (b : Bus) (s a p : Option ConnId) (m : Msg) (req : Bool) (e : Err)
-    (h : policyVerdict b s a p m req = some e) : e = .accessDenied := by
+    (h : policyVerdict b s a p m req = some e) : e = .accessDenied ∨ (e = .limitsExceeded ∧ queueFull b p = true) := by
   unfold policyVerdict at h
   repeat' split at h
-  all_goals first | (cases h; done) | (cases h; rfl)
+  all_goals first
+    | (cases h; done)
+    | (cases h; exact Or.inl rfl)
+    | (rename_i hq; cases h; exact Or.inr ⟨rfl, hq⟩)
 
 /-- **Send rules for the sender, receive rules for each recipient.** Between two registered
     connections the gate lets a message through exactly when the sender's rules allow sending it
     and the proposed recipient's rules allow receiving it. -/
 theorem gate_checks_sender_and_recipient (b : Bus) (s r : ConnId) (a : Option ConnId) (m : Msg) (req : Bool)
     (srules rrules : List PRule) (hs : rulesOf b (some s) = some srules) (hr : rulesOf b (some r) = some rrules)
-    (hact : b.isActive s = true) :
+    (hact : b.isActive s = true) (hq : queueFull b (some r) = false) :
     policyVerdict b (some s) a (some r) m req = none ↔
       (canSend b.limits.maxFdsDefault srules (msgView m) req (b.peerInfo (some r)) = true ∧
        canReceive b.limits.maxFdsDefault rrules (msgView m) req (decide (a ≠ some r) && (msgView m).dest.isSome)
          (b.peerInfo (some s)) = true) := by
   unfold policyVerdict sendAllowed recvAllowed
-  simp only [senderInactive, hact, Bool.not_true, Bool.false_eq_true, if_false, hs, hr]
+  simp only [senderInactive, hact, Bool.not_true, Bool.false_eq_true, if_false, hs, hr, hq]
   cases h1 : canSend b.limits.maxFdsDefault srules (msgView m) req (b.peerInfo (some r)) <;>
     cases h2 : canReceive b.limits.maxFdsDefault rrules (msgView m) req (decide (a ≠ some r) && (msgView m).dest.isSome)
       (b.peerInfo (some s)) <;> simp
